@@ -9,7 +9,12 @@
 (*   for { conn, err := Accept()                           AcceptReturns / *)
 (*                                                         AcceptFails     *)
 (*         mu{ active++; disarm() }; wg.Add; go serve      Count           *)
-(*   serve: serveOne loop on the connection                HandlerEnter,   *)
+(*   serve: notifyTransport(kind): transportNotifyMu{      NotifyEnter,    *)
+(*            bound to this kind already -> go on                          *)
+(*            else the user's ServeStartHook (user code:   HookReturn      *)
+(*            takes as long as it likes, may fail);                        *)
+(*            ok -> commit the binding; error -> return }                  *)
+(*          serveOne loop on the connection                HandlerEnter,   *)
 (*                                                         CallFinish      *)
 (*          EOF -> conn.Close;                                             *)
 (*          mu{ active--; if active==0 && !shutdown arm }  ConnDone        *)
@@ -33,7 +38,11 @@
 (* registered connection, and under fairness it does return once all       *)
 (* clients are gone; the Unix socket file is 0600 while serving and gone   *)
 (* on return.  A connection is "open" for the listener from the moment the *)
-(* accept loop has registered it (Count) until its serve goroutine ends;   *)
+(* accept loop has registered it (Count) until its serve goroutine ends -  *)
+(* that span contains every piece of user code run for the connection:     *)
+(* the serve-start hook its goroutine may have to run first (the first      *)
+(* connection, the first after a hook failure, the first after the Server   *)
+(* was bound to another transport kind - Rebind) and its handlers;          *)
 (* the window between Accept returning and Count is modelled (and, with    *)
 (* the optional hook points, replayed) but, with "stops" read as           *)
 (* "returns", it is benign: the accepted connection is still served and    *)
@@ -56,8 +65,12 @@ CONSTANTS
                 \* are gate points of the replay (optional verifAt hooks)
     Mode,       \* "mc" | "edges" | "tree"
     Depth,
-    Eager       \* generation: what the server's goroutines do on their own happens
+    Eager,      \* generation: what the server's goroutines do on their own happens
                 \* before the next driver-initiated step
+    SSHook      \* TRUE: a ServeStartHook is installed and every call of it for this
+                \* listener's transport kind is a gate point of the replay (user code: it
+                \* returns when the schedule says so, with success or an error).
+                \* FALSE: no hook - notifyTransport only commits the binding.
 
 Conn == 1..NC
 
@@ -73,8 +86,12 @@ VARIABLES
     curPending, \* one of them belongs to the timer the `timer` variable still refers to
     shutdown,
     cl,         \* client side of c: "idle" | "open" | "closed" | "refused"
-    sv,         \* server side of c: "none" | "queued" | "accepted" | "serving" |
-                \*                   "handler" | "done" | "dropped"
+    sv,         \* server side of c: "none" | "queued" | "accepted" | "notify" (goroutine
+                \*   started, in or waiting for notifyTransport) | "hook" (inside the
+                \*   serve-start hook) | "failed" (hook failed; goroutine on its way out) |
+                \*   "serving" | "handler" | "done" | "dropped"
+    bound,      \* transport kind the Server is bound to: "none" | "this" | "other"
+    nmu,        \* connection whose goroutine holds transportNotifyMu (0 = free)
     out,        \* out[c]: the client has written a request it has no response to yet
     ncalls,     \* completed calls on c
     got,        \* got[c]: sequence of responses delivered to c, each named by the
@@ -86,10 +103,12 @@ VARIABLES
     hist
 
 state == <<lst, loop, held, backlog, active, timer, age, pending, curPending, shutdown, cl, sv,
-           out, ncalls, got, sock, idleAge, prog>>
+           out, ncalls, got, sock, idleAge, prog, bound, nmu>>
 vars == <<state, hist>>
 
-Registered(c) == sv[c] \in {"serving", "handler"}
+Registered(c) == sv[c] \in {"notify", "hook", "failed", "serving", "handler"}
+\* user code (the serve-start hook, a handler) or the serve loop is running for c
+InService(c) == sv[c] \in {"hook", "failed", "serving", "handler"}
 NoneRegistered == \A c \in Conn : ~Registered(c)
 Returned == loop = "returned"
 Dur(tm) == IF tm = "idle" THEN T ELSE Grace
@@ -104,6 +123,13 @@ Snapshot ==
      progress |-> prog,
      parked_accept |-> IF Hooks THEN held ELSE 0,
      parked_timers |-> IF Hooks THEN pending ELSE 0]
+    @@ (IF SSHook
+        THEN [in_hook    |-> nmu # 0,
+              \* Accept has handed the connection to the server
+              accepted   |-> [c \in Conn |-> sv[c] \notin {"none", "queued", "dropped"}],
+              \* the server has closed the connection, the client has not
+              srv_closed |-> [c \in Conn |-> sv[c] = "done" /\ cl[c] = "open"]]
+        ELSE [x \in {} |-> 0])
 
 --------------------------------------------------------------------------
 (* What the server's goroutines do without being asked.                    *)
@@ -113,6 +139,8 @@ SelfEnabled ==
     \/ loop = "got" /\ ~Hooks
     \/ loop = "exited" /\ NoneRegistered
     \/ \E c \in Conn : sv[c] = "serving" /\ (out[c] \/ cl[c] = "closed")
+    \/ \E c \in Conn : sv[c] = "notify" /\ nmu = 0
+    \/ \E c \in Conn : sv[c] = "failed"
     \/ timer \in {"grace", "idle"} /\ Dur(timer) > 0 /\ age >= Dur(timer)
     \/ pending > 0 /\ ~Hooks
 
@@ -144,7 +172,7 @@ Open(c) ==
        ELSE /\ cl' = [cl EXCEPT ![c] = "refused"]
             /\ UNCHANGED <<sv, backlog>>
     /\ UNCHANGED <<lst, loop, held, active, timer, age, pending, curPending, shutdown, out, ncalls, got,
-                   sock, idleAge, prog>>
+                   sock, idleAge, prog, bound, nmu>>
     /\ Drive([a |-> "Open", args |-> [c |-> c], exp |-> [connected |-> lst = "open"]])
 
 \* the client closes its end; it never does so with a call outstanding
@@ -153,17 +181,17 @@ Close(c) ==
     /\ cl[c] = "open" /\ ~out[c]
     /\ cl' = [cl EXCEPT ![c] = "closed"]
     /\ UNCHANGED <<lst, loop, held, backlog, active, timer, age, pending, curPending, shutdown, sv, out,
-                   ncalls, got, sock, idleAge, prog>>
+                   ncalls, got, sock, idleAge, prog, bound, nmu>>
     /\ Drive([a |-> "Close", args |-> [c |-> c], exp |-> [closed |-> TRUE]])
 
 \* the client writes one request (an echo of a payload only this connection uses)
 CallStart(c) ==
     /\ Budget /\ Ready
     /\ cl[c] = "open" /\ ~out[c] /\ ncalls[c] < MaxCalls
-    /\ sv[c] \in {"queued", "accepted", "serving"}
+    /\ sv[c] \in {"queued", "accepted", "notify", "hook", "serving"}
     /\ out' = [out EXCEPT ![c] = TRUE]
     /\ UNCHANGED <<lst, loop, held, backlog, active, timer, age, pending, curPending, shutdown, cl, sv,
-                   ncalls, got, sock, idleAge, prog>>
+                   ncalls, got, sock, idleAge, prog, bound, nmu>>
     /\ Drive([a |-> "CallStart", args |-> [c |-> c, k |-> ncalls[c] + 1], exp |-> [sent |-> TRUE]])
 
 \* the handler returns; the serve loop writes the response on ITS connection
@@ -175,7 +203,7 @@ CallFinish(c) ==
     /\ ncalls' = [ncalls EXCEPT ![c] = @ + 1]
     /\ got' = [got EXCEPT ![c] = Append(@, c)]
     /\ UNCHANGED <<lst, loop, held, backlog, active, timer, age, pending, curPending, shutdown, cl,
-                   sock, idleAge, prog>>
+                   sock, idleAge, prog, bound, nmu>>
     /\ Drive([a |-> "CallFinish", args |-> [c |-> c, k |-> ncalls[c] + 1], exp |-> [resp |-> c]])
 
 (* Time.                                                                   *)
@@ -189,7 +217,7 @@ Tick ==
     /\ Mode = "mc"
     /\ Advance(1)
     /\ UNCHANGED <<lst, loop, held, backlog, active, timer, pending, curPending, shutdown, cl, sv, out,
-                   ncalls, got, sock, prog>>
+                   ncalls, got, sock, prog, bound, nmu>>
     /\ hist' = hist
 
 \* generation: the client does nothing for well over an idle timeout
@@ -197,7 +225,7 @@ Wait ==
     /\ Mode # "mc" /\ Budget /\ Ready /\ ~Returned
     /\ Advance(T)
     /\ UNCHANGED <<lst, loop, held, backlog, active, timer, pending, curPending, shutdown, cl, sv, out,
-                   ncalls, got, sock, prog>>
+                   ncalls, got, sock, prog, bound, nmu>>
     /\ Drive([a |-> "Wait", args |-> [x |-> 0], exp |-> [waited |-> TRUE]])
 
 --------------------------------------------------------------------------
@@ -208,7 +236,7 @@ AcceptReturns ==
     /\ held' = Head(backlog)
     /\ backlog' = Tail(backlog)
     /\ sv' = [sv EXCEPT ![Head(backlog)] = "accepted"]
-    /\ UNCHANGED <<lst, active, timer, age, pending, curPending, shutdown, cl, out, ncalls, got, sock, idleAge, prog>>
+    /\ UNCHANGED <<lst, active, timer, age, pending, curPending, shutdown, cl, out, ncalls, got, sock, idleAge, prog, bound, nmu>>
     /\ Self
 
 \* mu{ active++; disarm() }; wg.Add(1); go serve(conn)
@@ -216,11 +244,11 @@ CountStep ==
     /\ loop = "got"
     /\ active' = active + 1
     /\ timer' = "none" /\ age' = 0 /\ curPending' = FALSE
-    /\ sv' = [sv EXCEPT ![held] = "serving"]
+    /\ sv' = [sv EXCEPT ![held] = IF SSHook THEN "notify" ELSE "serving"]
     /\ loop' = "accept" /\ held' = 0
     /\ idleAge' = 0
     /\ prog' = [prog EXCEPT !.counted = @ + 1]
-    /\ UNCHANGED <<lst, backlog, pending, shutdown, cl, out, ncalls, got, sock>>
+    /\ UNCHANGED <<lst, backlog, pending, shutdown, cl, out, ncalls, got, sock, bound, nmu>>
 
 Count ==
     IF Hooks
@@ -234,7 +262,7 @@ AcceptFails ==
     /\ loop' = "exited"
     /\ timer' = "none" /\ age' = 0 /\ curPending' = FALSE
     /\ UNCHANGED <<lst, held, backlog, active, pending, shutdown, cl, sv, out, ncalls, got,
-                   sock, idleAge, prog>>
+                   sock, idleAge, prog, bound, nmu>>
     /\ Self
 
 \* wg.Wait() is over; return; deferred ln.Close() and os.Remove(path)
@@ -243,28 +271,77 @@ Return ==
     /\ loop' = "returned"
     /\ sock' = "absent"
     /\ UNCHANGED <<lst, held, backlog, active, timer, age, pending, curPending, shutdown, cl, sv, out,
-                   ncalls, got, idleAge, prog>>
+                   ncalls, got, idleAge, prog, bound, nmu>>
     /\ Self
 
 (* Per-connection serve goroutine.                                         *)
+\* serveUnixConn/serveTcpConn starts with notifyTransport(kind, nil):
+\*   transportNotifyMu.Lock()  (single flight: one goroutine at a time)
+\*   bound to this kind already -> unlock, go on to the serve loop
+\*   else                       -> call the user's hook with transportNotifyMu held
+NotifyEnter(c) ==
+    /\ SSHook
+    /\ sv[c] = "notify" /\ nmu = 0
+    /\ IF bound = "this"
+       THEN sv' = [sv EXCEPT ![c] = "serving"] /\ nmu' = nmu
+       ELSE sv' = [sv EXCEPT ![c] = "hook"] /\ nmu' = c
+    /\ UNCHANGED <<lst, loop, held, backlog, active, timer, age, pending, curPending, shutdown, cl, out,
+                   ncalls, got, sock, idleAge, prog, bound>>
+    /\ Self
+
+\* the hook (user code) returns, whenever it likes:
+\*   nil   -> the binding is committed, the goroutine goes on to its serve loop
+\*   error -> nothing is committed (the next connection fires the hook again); the goroutine
+\*            returns without serving: whatever the client already wrote is never answered
+HookReturnStep(ok) ==
+    /\ nmu # 0
+    /\ nmu' = 0
+    /\ IF ok
+       THEN /\ bound' = "this"
+            /\ sv' = [sv EXCEPT ![nmu] = "serving"]
+            /\ out' = out
+       ELSE /\ bound' = bound
+            /\ sv' = [sv EXCEPT ![nmu] = "failed"]
+            /\ out' = [out EXCEPT ![nmu] = FALSE]
+    /\ UNCHANGED <<lst, loop, held, backlog, active, timer, age, pending, curPending, shutdown, cl,
+                   ncalls, got, sock, idleAge, prog>>
+
+HookReturn(ok) ==
+    /\ Budget /\ Ready /\ HookReturnStep(ok)
+    /\ Drive([a |-> "ReleaseHook", args |-> [c |-> nmu, ok |-> ok], exp |-> [released |-> TRUE]])
+
+\* the same Server is bound to another transport kind in between (it also serves a pipe, say):
+\* notifyTransport(pipe) takes transportNotifyMu too, and the next connection of this listener
+\* finds the Server bound to the other kind and fires the hook again
+Rebind ==
+    /\ SSHook /\ Budget /\ Ready /\ ~Returned
+    /\ bound = "this" /\ nmu = 0
+    /\ bound' = "other"
+    /\ UNCHANGED <<lst, loop, held, backlog, active, timer, age, pending, curPending, shutdown, cl, sv,
+                   out, ncalls, got, sock, idleAge, prog, nmu>>
+    /\ Drive([a |-> "Rebind", args |-> [x |-> 0], exp |-> [kind |-> "pipe"]])
+
 \* serveOne read a request off connection c and entered the handler (user code)
 HandlerEnter(c) ==
     /\ sv[c] = "serving" /\ out[c]
     /\ sv' = [sv EXCEPT ![c] = "handler"]
     /\ UNCHANGED <<lst, loop, held, backlog, active, timer, age, pending, curPending, shutdown, cl, out,
-                   ncalls, got, sock, idleAge, prog>>
+                   ncalls, got, sock, idleAge, prog, bound, nmu>>
     /\ Self
 
-\* EOF on c: conn.Close(); mu{ active--; if active == 0 && !shutdown { arm(idle) } }
+\* EOF on c (or the serve-start hook failed): conn.Close();
+\* mu{ active--; if active == 0 && !shutdown { arm(idle) } }
 ConnDone(c) ==
-    /\ sv[c] = "serving" /\ ~out[c] /\ cl[c] = "closed"
+    /\ \/ sv[c] = "serving" /\ ~out[c] /\ cl[c] = "closed"
+       \/ sv[c] = "failed"
     /\ sv' = [sv EXCEPT ![c] = "done"]
     /\ active' = active - 1
     /\ IF active - 1 = 0 /\ ~shutdown
        THEN timer' = "idle" /\ age' = 0 /\ curPending' = FALSE
        ELSE UNCHANGED <<timer, age, curPending>>
     /\ prog' = [prog EXCEPT !.done = @ + 1]
-    /\ UNCHANGED <<lst, loop, held, backlog, pending, shutdown, cl, out, ncalls, got, sock, idleAge>>
+    /\ UNCHANGED <<lst, loop, held, backlog, pending, shutdown, cl, out, ncalls, got, sock, idleAge,
+                   bound, nmu>>
     /\ Self
 
 (* Idle timer.                                                             *)
@@ -275,7 +352,7 @@ TimerExpire ==
     /\ pending' = pending + 1
     /\ curPending' = TRUE
     /\ UNCHANGED <<lst, loop, held, backlog, active, age, shutdown, cl, sv, out, ncalls, got,
-                   sock, idleAge, prog>>
+                   sock, idleAge, prog, bound, nmu>>
     /\ Self
 
 \* what the func does once it has mu:
@@ -298,7 +375,7 @@ TimerFire_CurrentStep ==
     /\ curPending' = FALSE
     /\ Decide
     /\ prog' = [prog EXCEPT !.timer_runs = @ + 1]
-    /\ UNCHANGED <<loop, held, active, timer, age, cl, out, ncalls, got, idleAge>>
+    /\ UNCHANGED <<loop, held, active, timer, age, cl, out, ncalls, got, idleAge, bound, nmu>>
 
 \* the func of a timer that expired and was then disarmed (Stop came too late)
 TimerFire_StaleStep ==
@@ -306,7 +383,8 @@ TimerFire_StaleStep ==
     /\ pending' = pending - 1
     /\ IF StaleFix THEN UNCHANGED <<shutdown, lst, sv, backlog, sock>> ELSE Decide
     /\ prog' = [prog EXCEPT !.timer_runs = @ + 1]
-    /\ UNCHANGED <<loop, held, active, timer, age, curPending, cl, out, ncalls, got, idleAge>>
+    /\ UNCHANGED <<loop, held, active, timer, age, curPending, cl, out, ncalls, got, idleAge,
+                   bound, nmu>>
 
 TimerFire ==
     IF Hooks
@@ -329,30 +407,34 @@ Init ==
     /\ sock = "0600"
     /\ idleAge = 0
     /\ prog = [counted |-> 0, done |-> 0, timer_runs |-> 0]
+    /\ bound = "none" /\ nmu = 0
     /\ hist = << [a |-> "Init",
                   args |-> [NC |-> NC, Transport |-> Transport, Hooks |-> Hooks, T |-> T,
-                            StaleFix |-> StaleFix],
+                            StaleFix |-> StaleFix, SSHook |-> SSHook],
                   exp |-> [listening |-> TRUE] @@ Snapshot] >>
 
 Server ==
     \/ AcceptReturns \/ Count \/ AcceptFails \/ Return
-    \/ \E c \in Conn : HandlerEnter(c) \/ ConnDone(c)
+    \/ \E c \in Conn : NotifyEnter(c) \/ HandlerEnter(c) \/ ConnDone(c)
     \/ TimerExpire \/ TimerFire
 
 Next ==
     \/ \E c \in Conn : Open(c) \/ Close(c) \/ CallStart(c) \/ CallFinish(c)
+    \/ HookReturn(TRUE) \/ HookReturn(FALSE) \/ Rebind
     \/ Tick \/ Wait
     \/ Server
 
 Spec == Init /\ [][Next]_vars
 
-\* the server's goroutines and the clock make progress; a handler returns
+\* the server's goroutines and the clock make progress; a handler returns; so does the hook
 FairSpec == Spec /\ WF_vars(Tick)
+                 /\ WF_vars(HookReturn(TRUE) \/ HookReturn(FALSE))
                  /\ WF_vars(AcceptReturns) /\ WF_vars(Count) /\ WF_vars(AcceptFails)
                  /\ WF_vars(Return) /\ WF_vars(TimerExpire) /\ WF_vars(TimerFire)
                  /\ \A c \in Conn : /\ WF_vars(CallFinish(c))
                                      /\ WF_vars(ConnDone(c))
                                      /\ WF_vars(HandlerEnter(c))
+                                     /\ WF_vars(NotifyEnter(c))
 
 --------------------------------------------------------------------------
 (* C42, stated declaratively.                                              *)
@@ -360,7 +442,8 @@ FairSpec == Spec /\ WF_vars(Tick)
 \* RunUnix/RunTcp returns only when no accepted connection is still open, and only
 \* because the idle shutdown was decided
 ReturnOnlyWhenIdle ==
-    Returned => /\ \A c \in Conn : sv[c] \notin {"accepted", "serving", "handler"}
+    Returned => /\ \A c \in Conn : sv[c] \notin {"accepted", "notify", "hook", "failed", "serving",
+                                                  "handler"}
                 /\ shutdown
 
 \* ... the decision to stop is never taken while a registered connection is open, and the
@@ -368,6 +451,13 @@ ReturnOnlyWhenIdle ==
 StopsOnlyAfterAnIdlePeriod ==
     /\ [][ (shutdown' /\ ~shutdown) => NoneRegistered ]_vars
     /\ [][ (pending' > pending) => (NoneRegistered /\ idleAge >= T) ]_vars
+
+\* ... in particular never while user code (the serve-start hook, however long it takes, or a
+\* handler) or the serve loop is running for a connection, and while that is so the listener
+\* keeps listening unless it was stopped before the connection was registered (the connection
+\* Accept returned just as an idle period ended)
+NeverStopsWhileInService ==
+    [][ (shutdown' /\ ~shutdown) => \A c \in Conn : ~InService(c) ]_vars
 
 \* Strict reading: the full idle timeout without a registered connection immediately
 \* precedes the decision.  The code as it is (StaleFix = FALSE) does NOT satisfy this:
